@@ -162,6 +162,10 @@ func genC12(t *rapid.T) C12Case {
 			c.CLIText = "5"
 		}
 	}
+	if (c.Kind == KString || c.Kind == KStringOpt) && rapid.IntRange(0, 7).Draw(t, "cliempty") == 0 {
+		// an empty command-line argument is a value too (prog --opt "$UNSET"): it can only be written as a separate argument
+		c.CLI, c.CLIText = "detached-empty", ""
+	}
 	c.InCmd = rapid.IntRange(0, 3).Draw(t, "incmd") == 0
 	switch rapid.IntRange(0, 7).Draw(t, "owner") {
 	case 0:
@@ -184,6 +188,8 @@ func checkC12(c C12Case, st *evid.Stats) error {
 		argv = append(argv, "--opt="+string(c.CLIText))
 	case "detached":
 		argv = append(argv, "--opt", string(c.CLIText))
+	case "detached-empty":
+		argv = append(argv, "--opt", "")
 	case "alias":
 		key = "alt"
 		if c.Kind == KBool {
